@@ -59,10 +59,10 @@ class cache_func(wrapper):
     >>> assert f.cache[key] == 3
 
     """
-    def _key(self, *args, **kwargs):
+    def _key(self, /, *args, **kwargs):
         return _prehash(args), tuple(sorted([(k, _prehash(v)) for k, v in kwargs.items()]))
 
-    def wrapped(self, *args, **kwargs):
+    def wrapped(self, /, *args, **kwargs):
         key = self._key(*args, **kwargs)
         try:
             self.cache = getattr(self, _cache, {})
